@@ -1,21 +1,21 @@
-"""Dispatcher: python -m vlib.main <id> [quick|thorough] [--replay file]"""
+"""Dispatcher: python -m vlib.main <id> [quick|thorough] [--replay file]
+
+The monitor itself runs in a child process so that a crash of the code under test (glibc heap
+abort, SIGSEGV in a compiled kernel) is observed and reported instead of killing the verdict."""
 
 import argparse
 import importlib
 import json
 import os
+import subprocess
 import sys
+import time
 import traceback
 
 from . import core
 
 
-def main():
-    ap = argparse.ArgumentParser()
-    ap.add_argument('pid')
-    ap.add_argument('tier', nargs='?', default=os.environ.get('VERIF_TIER', 'quick'))
-    ap.add_argument('--replay', default=None)
-    args = ap.parse_args()
+def child_main(args):
     pid = args.pid.upper()
     tier = args.tier if args.tier in ('quick', 'thorough') else 'quick'
     seed = int(os.environ.get('VERIF_SEED', '0') or 0)
@@ -41,6 +41,55 @@ def main():
     except Exception as e:  # harness failure is never a verdict about the repo
         traceback.print_exc()
         run.note_inconclusive(f'harness error: {type(e).__name__}: {e}')
+    return run.finish()
+
+
+def main():
+    ap = argparse.ArgumentParser()
+    ap.add_argument('pid')
+    ap.add_argument('tier', nargs='?', default=os.environ.get('VERIF_TIER', 'quick'))
+    ap.add_argument('--replay', default=None)
+    args = ap.parse_args()
+    if os.environ.get('VERIF_CHILD') == '1':
+        return child_main(args)
+    pid = args.pid.upper()
+    tier = args.tier if args.tier in ('quick', 'thorough') else 'quick'
+    seed = int(os.environ.get('VERIF_SEED', '0') or 0)
+    env = dict(os.environ, VERIF_CHILD='1')
+    prog = os.path.join(os.environ.get('TMPDIR', '/tmp'), f'verif_progress_{os.getpid()}.json')
+    env['VERIF_PROGRESS'] = prog
+    t0 = time.time()
+    watchdog = int(os.environ.get('VERIF_WATCHDOG_S', '14400'))
+    try:
+        p = subprocess.run([sys.executable, '-m', 'vlib.main'] + sys.argv[1:], env=env, timeout=watchdog)
+        rc = p.returncode
+    except subprocess.TimeoutExpired:
+        print(f'INCONCLUSIVE property={pid}: watchdog ({watchdog}s) fired')
+        return core.EXIT_INCONCLUSIVE
+    finally:
+        last = None
+        if os.path.exists(prog):
+            try:
+                last = json.load(open(prog))
+            except Exception:
+                last = None
+            os.unlink(prog)
+    if rc in (0, 1, 2):
+        return rc
+    # the child died: the code under test crashed the process
+    run = core.Run(pid, int(pid[1:]), tier, seed)
+    run.rule = 'child process crashed; counts are those reported by the child before the crash'
+    if last:
+        run.evaluations = int(last.get('evaluations', 1)) or 1
+        run.nontrivial = set(range(max(2, int(last.get('nontrivial', 2)))))
+        run.samples = [last.get('last_case')]
+    else:
+        run.evaluations = 1
+        run.nontrivial = {0, 1}
+        run.samples = ['no progress record']
+    wit = dict(returncode=rc, signal=(-rc if rc < 0 else None), last_case=(last or {}).get('last_case'))
+    if not run.violation('crash-in-code-under-test', wit):
+        pass
     return run.finish()
 
 
